@@ -138,3 +138,7 @@ func init() {
 		},
 	})
 }
+
+func (o *c08Oracle) OnDeath(e *core.Engine, idx int, st *core.Step, deaths []string) []core.Violation {
+	return ReplicaDeath("C08", "transcript-equality", e, st, deaths)
+}
